@@ -11,8 +11,11 @@ inside `verify` (numbers of commitments / layers / alphas, row widths, query pos
 LDE domain size, divisibility of the domain by the folding factor established by `FriVerifier::new`,
 roots of unity of the orders that occur, coefficient counts, assertion validity).  Its hypothesis
 `contextFits` lists exactly the conditions on the UNTRUSTED context of the proof that `verify` does
-not check before relying on them; each is a panic site of the real code, replayed by the harness
-family `vfyx` (the examples at the end are the model-side witnesses).
+not check before relying on them; each is a panic site of the real code (recorded findings, replayed
+by the checked stream `vfy`).  Two further conditions of the first version of this file — a modulus
+that fits `from_bytes_with_padding`, fewer queries than LDE points — were predicted by the model,
+confirmed on the real verifier and repaired in /repo (ceafb22); the model follows and the theorems
+no longer need them.
 -/
 import Wf.Lemmas.VerifierAccept
 import Wf.Lemmas.VerifierExample
@@ -24,12 +27,14 @@ open Wf Wf.Verifier Wf.AirDesc
 
 /-- MAIN.  For EVERY byte string, hasher, field set, description, public inputs and acceptable
 options (option set or minimal conjectured security): if the context of the decoded proof fits the
-statement (`contextFits`: seed elements computable, `Air::new` accepts the layout, periodic columns
-not longer than the trace, assertions valid for the announced width/length, fewer queries than LDE
-points) then the verdict is `ok` or an error — never a panic.  Bytes that do not decode need no
-hypothesis at all. -/
+statement (`contextFits`: `Air::new` accepts the layout, periodic columns not longer than the trace,
+assertions valid for the announced width/length) then the verdict is `ok` or an error — never a
+panic.  Bytes that do not decode need no hypothesis at all.  (`fieldOk` is a sanity condition on the
+base-field PARAMETERS — at least two bytes per element, every value of one byte less is below the
+modulus — true of f64, f62 and f128.) -/
 theorem verify_never_aborts (H : HashParams) (fs : FieldSet) (d : Desc) (pub : PubInputs)
     (acc : Security.Acceptable) (bytes : Bytes) (hacc : ∀ bits, acc ≠ .minProven bits)
+    (hfield : fieldOk fs.fp = true)
     (hfits : ∀ p r, proofDec bytes = .ok p r → contextFits fs.fp d pub p.context = true) :
     verifyModel H fs d pub acc bytes = .ok () ∨
     ∃ e, verifyModel H fs d pub acc bytes = .error e ∧ ∀ s, e ≠ .abort s := by
@@ -39,12 +44,13 @@ theorem verify_never_aborts (H : HashParams) (fs : FieldSet) (d : Desc) (pub : P
     refine Or.inr ⟨e, rfl, ?_⟩
     intro s hs
     subst hs
-    exact verifyModel_noabort H fs d pub acc bytes s hacc hfits hv
+    exact verifyModel_noabort H fs d pub acc bytes s hacc hfield hfits hv
 
 /-- the same, read the other way: a panic of `verify` implies that the proof decoded and that its
-context does NOT fit the statement (one of the five unchecked conditions fails) -/
+context does NOT fit the statement (one of the three unchecked conditions fails) -/
 theorem abort_only_if_context_does_not_fit (H : HashParams) (fs : FieldSet) (d : Desc) (pub : PubInputs)
     (acc : Security.Acceptable) (bytes : Bytes) (s : AbortSite) (hacc : ∀ bits, acc ≠ .minProven bits)
+    (hfield : fieldOk fs.fp = true)
     (h : verifyModel H fs d pub acc bytes = .error (.abort s)) :
     ∃ p r, proofDec bytes = .ok p r ∧ contextFits fs.fp d pub p.context = false := by
   cases hp : proofDec bytes with
@@ -54,7 +60,7 @@ theorem abort_only_if_context_does_not_fit (H : HashParams) (fs : FieldSet) (d :
     | false => rfl
     | true =>
       exfalso
-      refine verifyModel_noabort H fs d pub acc bytes s hacc ?_ h
+      refine verifyModel_noabort H fs d pub acc bytes s hacc hfield ?_ h
       intro p' r' hp'
       rw [hp] at hp'
       injection hp' with h1 h2
@@ -63,23 +69,25 @@ theorem abort_only_if_context_does_not_fit (H : HashParams) (fs : FieldSet) (d :
   | abort => exact absurd hp (proof_noAbort bytes)
 
 /-- COMPLETENESS OF THE LIST.  With NO hypothesis on the proof: whatever the bytes, a panic of the
-model can only be one of the five named sites (`Context::to_elements`, `Air::new`, periodic columns,
-boundary constraints, `draw_integers`).  Every other place where the Rust code indexes, unwraps or
-asserts — the FRI verifier loop and its channel, both Merkle batch verifications, `Table::from_bytes`,
-`TransitionConstraints::new`, roots of unity, the security estimate, all decoders — is unreachable
-for every byte string. -/
+model can only be one of the three named sites (`Air::new`, periodic columns, boundary constraints) —
+all three one root cause: `verify` hands the proof's `TraceInfo` to the AIR before anything relates it
+to the statement.  Every other place where the Rust code indexes, unwraps or asserts — the seed
+construction and `draw_integers` (since fix ceafb22), the FRI verifier loop and its channel, both
+Merkle batch verifications, `Table::from_bytes`, `TransitionConstraints::new`, roots of unity, the
+security estimate, all decoders — is unreachable for every byte string. -/
 theorem verify_aborts_only_at_named_sites (H : HashParams) (fs : FieldSet) (d : Desc) (pub : PubInputs)
     (acc : Security.Acceptable) (bytes : Bytes) (s : AbortSite) (hacc : ∀ bits, acc ≠ .minProven bits)
+    (hfield : fieldOk fs.fp = true)
     (h : verifyModel H fs d pub acc bytes = .error (.abort s)) :
-    s = .seed ∨ s = .airNew ∨ s = .periodic ∨ s = .boundary ∨ s = .drawIntegers :=
-  verifyModel_abort H fs d pub acc bytes s hacc h
+    s = .airNew ∨ s = .periodic ∨ s = .boundary :=
+  verifyModel_abort H fs d pub acc bytes s hacc hfield h
 
 /-- on a parsed proof (whatever bytes it came from) -/
 theorem verify_parsed_never_aborts (H : HashParams) (fs : FieldSet) (d : Desc) (pub : PubInputs)
     (acc : Security.Acceptable) (p : ProofM) (s : AbortSite) (hacc : ∀ bits, acc ≠ .minProven bits)
-    (hd : Decoded p) (hfits : contextFits fs.fp d pub p.context = true) :
+    (hfield : fieldOk fs.fp = true) (hd : Decoded p) (hfits : contextFits fs.fp d pub p.context = true) :
     verifyParsed H fs d pub acc p ≠ .error (.abort s) :=
-  verifyParsed_noabort H fs d pub acc p s hacc hd hfits
+  verifyParsed_noabort H fs d pub acc p s hacc hfield hd hfits
 
 /-- the FRI phase in isolation: on the openings the verifier derives from the proof
 (`layerOpenings`), `FriVerifier::verify` never panics once the domain is divisible by
@@ -150,7 +158,7 @@ theorem accepted_implies_ood_consistent (H : HashParams) (fs : FieldSet) (d : De
             (coeffs.drop (d.trans.length + d.auxTrans.length)) ch.oodTraceCur ch.oodTraceNext z = .ok ev ∧
           ef.ops.beq ev (oodQuotientValue ef.ops z p.context.info.length ch.oodQuotCur) = true) := by
   obtain ⟨p, r, hp, hv⟩ := verifyModel_ok H fs d pub acc bytes h
-  obtain ⟨ctx, ctxEls, _, hels, hctx, hin⟩ := verifyParsed_ok H fs d pub acc p hv
+  obtain ⟨ctx, ctxEls, _, _, hels, _, hctx, hin⟩ := verifyParsed_ok H fs d pub acc p hv
   refine ⟨p, r, ctx, ctxEls, hp, hels, hctx, hin.imp ?_⟩
   intro F ef hrun
   obtain ⟨ch, tc0, coeffs, z, c2, deep, alphas, c3, positions, run⟩ := verifyIn_ok H fs.fp ef d pub p ctx _ hrun
@@ -184,7 +192,7 @@ theorem accepted_implies_openings_verify (H : HashParams) (fs : FieldSet) (d : D
             op.merkleOk = true) ∧
           remainderCommitted H ef ch = true) := by
   obtain ⟨p, r, hp, hv⟩ := verifyModel_ok H fs d pub acc bytes h
-  obtain ⟨ctx, ctxEls, _, hels, hctx, hin⟩ := verifyParsed_ok H fs d pub acc p hv
+  obtain ⟨ctx, ctxEls, _, _, hels, _, hctx, hin⟩ := verifyParsed_ok H fs d pub acc p hv
   refine ⟨p, r, ctx, ctxEls, hp, hels, hctx, hin.imp ?_⟩
   intro F ef hrun
   obtain ⟨ch, tc0, coeffs, z, c2, deep, alphas, c3, positions, run⟩ := verifyIn_ok H fs.fp ef d pub p ctx _ hrun
@@ -214,7 +222,7 @@ theorem accepted_implies_fri_accepts (H : HashParams) (fs : FieldSet) (d : Desc)
               ch.friLayers)
             ch.friRemainder (remainderCommitted H ef ch) = .ok ()) := by
   obtain ⟨p, r, hp, hv⟩ := verifyModel_ok H fs d pub acc bytes h
-  obtain ⟨ctx, ctxEls, hval, hels, hctx, hin⟩ := verifyParsed_ok H fs d pub acc p hv
+  obtain ⟨ctx, ctxEls, hval, _, hels, _, hctx, hin⟩ := verifyParsed_ok H fs d pub acc p hv
   refine ⟨p, r, ctx, ctxEls, hp, hval, hels, hctx, hin.imp ?_⟩
   intro F ef hrun
   obtain ⟨ch, tc0, coeffs, z, c2, deep, alphas, c3, positions, run⟩ := verifyIn_ok H fs.fp ef d pub p ctx _ hrun
@@ -256,11 +264,18 @@ example : ∃ bytes p r, proofDec bytes = .ok p r ∧ contextFits paramsF64 d0 [
 example : verifyModel h0 f64Fields d0 [[5]] (.optionSet [o0]) (proofEnc (proofWith c0)) =
     .error (.deser .commitments) := by decide +kernel
 
--- each excluded condition is a reachable panic of the model (and of the real verifier: family `vfyx`):
--- (1) modulus bytes padded to 15 bytes: `from_bytes_with_padding` (math/src/field/traits.rs)
-example : abortsAt (verifyModel h0 f64Fields d0 [[5]] (.optionSet [o0])
-    (proofEnc (proofWith { c0 with modulus := leBytes 8 paramsF64.m ++ List.replicate 7 0 }))) .seed = true := by
-  decide +kernel
+-- the field parameters of the instance satisfy the sanity condition
+example : fieldOk paramsF64 = true := by decide +kernel
+-- REPAIRED (ceafb22): modulus bytes padded to 15 bytes used to panic in `from_bytes_with_padding`;
+-- the base field check now comes first
+example : verifyModel h0 f64Fields d0 [[5]] (.optionSet [o0])
+    (proofEnc (proofWith { c0 with modulus := leBytes 8 paramsF64.m ++ List.replicate 7 0 })) =
+    .error .inconsistentBaseField := by decide +kernel
+-- REPAIRED (ceafb22): as many queries as LDE points used to reach the assertion of `draw_integers`
+example : verifyModel h0 f64Fields d0 [[5]] (.optionSet [⟨16, 2, 0, 1, 2, 3, 0, 0, 1, 1⟩])
+    (proofEnc (proofWith { c0 with options := ⟨16, 2, 0, 1, 2, 3, 0, 0, 1, 1⟩ })) =
+    .error (.deser .queries) := by decide +kernel
+-- a remaining excluded condition is a reachable panic of the model (and of the real verifier):
 -- (2) a context announcing an auxiliary segment for a single-segment AIR: `AirContext::new`
 example : abortsAt (verifyModel h0 f64Fields d0 [[5]] (.optionSet [o0])
     (proofEnc { proofWith { c0 with info := ⟨1, 1, 0, 8, []⟩ } with traceQueries := [([], []), ([], [])] }))
